@@ -161,3 +161,56 @@ Proof. intros. now apply arb_facets_ok. Qed.
 Theorem dispatch_hex (p : list R) (d : list N) :
   body_parts RS HEX p d = body_parts RS RHP p d.
 Proof. reflexivity. Qed.
+
+(* ---- check_params_length: a wrong number of entries is an error ---- *)
+Definition expected_lengths (b : body) : list nat :=
+  match b with
+  | BOX | WED => [12] | RPP => [6] | SPH => [4] | RCC | ELL => [7]
+  | RHP | HEX => [9; 15] | REC => [10; 12] | TRC => [8] | ARB => [24]
+  end%nat.
+
+Theorem wrong_count_rejected (b : body) (p : list R) (d : list N) :
+  ~ In (List.length p) (expected_lengths b) ->
+  body_parts RS b p d = Err EMacroBody.
+Proof.
+  intros H.
+  assert (F : forall n, ~ In (List.length p) [n] -> len_is p n = false).
+  { intros n Hn. unfold len_is. apply Nat.eqb_neq. intros E. apply Hn. now left. }
+  assert (F2 : forall n m, ~ In (List.length p) [n; m] -> len_is p n || len_is p m = false).
+  { intros n m Hn. unfold len_is. apply orb_false_iff. split; apply Nat.eqb_neq; intros E;
+      apply Hn; cbn; auto. }
+  destruct b; cbn [body_parts expected_lengths] in *;
+    unfold box, rpp, sph, rcc, rhp, rec, trc, ell, wed, arb;
+    rewrite ?(F _ H), ?(F2 _ _ H); reflexivity.
+Qed.
+
+Theorem arb_wrong_descriptor_count (p : list R) (d : list N) :
+  List.length d <> 6%nat -> arb RS p d = Err EMacroBody.
+Proof.
+  intros H. unfold arb. apply Nat.eqb_neq in H. rewrite H, andb_false_r. reflexivity.
+Qed.
+
+(* TRC with equal radii: the apex does not exist, the code divides by zero *)
+Theorem trc_equal_radii_error (v h : pt) (r : R) :
+  trc RS (pl v ++ pl h ++ [r; r]) = Err EZeroDiv.
+Proof.
+  open_body @trc. change 7%nat with (3 + (3 + 1))%nat. change 6%nat with (3 + (3 + 0))%nat.
+  rewrite !nth_skip. cbn [nth]. unfold divr. rs.
+  replace (r - r) with 0 by ring.
+  destruct (Reqb 0 0) eqn:E; [reflexivity|]. apply Reqb_false in E. congruence.
+Qed.
+
+(* sanity of the ARB Spec: the centroid is strictly inside every admissible
+   facet's half-space *)
+Theorem arb_centroid_inside (vs : list pt) (facets : list (list nat)) :
+  Forall (facet_admissible vs (centroid_of vs)) facets ->
+  inside_of (arb_facets vs facets) (centroid_of vs).
+Proof.
+  unfold inside_of, arb_facets. induction 1 as [|f r Hf _ IH]; cbn [map]; constructor; [|exact IH].
+  destruct Hf as (i1 & i2 & i3 & rest & p1 & p2 & p3 & -> & E1 & E2 & E3 & _ & Hs).
+  cbn [arb_facet_of].
+  rewrite (nth_error_nth _ _ _ origin E1), (nth_error_nth _ _ _ origin E2),
+          (nth_error_nth _ _ _ origin E3).
+  unfold arb_facet. set (s := dot (cross (vsub p1 p2) (vsub p1 p3)) (vsub (centroid_of vs) p1)) in *.
+  nra.
+Qed.
